@@ -76,6 +76,9 @@ func runC08(tier string, seed uint64, out string) error {
 					h.sc.wscript = nil
 					h.sc.inject = append(h.sc.inject, pubInbound("in/1", []byte{2}))
 					h.doRead()
+					// whatever became of the first request, the next one goes out as a whole packet
+					// on a connection that carries whole packets only
+					h.publish(false, []byte{1}, "u")
 					h.sc.noFaults = false
 					h.doRead()
 				})
